@@ -358,11 +358,19 @@ func init() {
 		s := c.Args[0].(StringV)
 		base, _ := ex.concreteInt(c.St, c.Args[1].(*term.Term), true)
 		bitSize, _ := ex.concreteInt(c.St, c.Args[2].(*term.Term), true)
-		if base != 10 || bitSize != 64 {
+		if bitSize == 0 {
+			bitSize = 64
+		}
+		if base != 10 || bitSize < 1 || bitSize > 64 {
 			abort("UNSUPPORTED", "ParseUint base %d bits %d", base, bitSize)
 		}
 		val, synOK, rangeOK := parseUintTerm(s.B)
-		return ex.parseResults(c, "ParseUint", s, val, synOK, rangeOK, term.Const(64, ^uint64(0)))
+		maxV := ^uint64(0)
+		if bitSize < 64 {
+			maxV = uint64(1)<<uint(bitSize) - 1
+			rangeOK = term.And(rangeOK, term.Ule(val, term.Const(64, maxV)))
+		}
+		return ex.parseResults(c, "ParseUint", s, val, synOK, rangeOK, term.Const(64, maxV))
 	}
 	Stubs["strconv.Atoi"] = func(ex *Exec, c *CallCtx) []*callResult {
 		s := c.Args[0].(StringV)
